@@ -13,7 +13,7 @@ import UralModel.Model.LinksConcrete
   is accepted.
 -/
 namespace Ural.UrlPattern
-open Ural.Py Ural.Py.Re Ural.Gen.Patterns Ural.UrlParts Ural.UrlRoundTrip Ural.CanonRoundTrip
+open Ural.Py Ural.Py.Re Ural.Py.Re.Extra Ural.Gen.Patterns Ural.UrlParts Ural.UrlRoundTrip Ural.CanonRoundTrip
 open Ural.Html Ural.IsUrl
 
 /-! ## the region -/
